@@ -113,6 +113,8 @@ theorem walk_fit (pol : Nat) (sb : Bytes) :
         have hfit := newNVar_fit _ _ _ _ _ _ _ _ he
         have hsl : (slice sb fso (gso - fso)).length ≤ sb.length := by
           simp only [slice, List.length_take, List.length_drop]; omega
+        split at h
+        · cases h
         apply ih _ _ _ _ st (by omega) _ h
         intro w hw
         rcases List.mem_append.1 hw with hw | hw
